@@ -4030,6 +4030,18 @@ impl Interpreter {
             }
 
             JsFunction::Bytecode(bc_func) => {
+                // A class constructor is only ever entered through `new` or `super(...)`
+                if matches!(new_target, JsValue::Undefined)
+                    && bc_func
+                        .chunk
+                        .function_info
+                        .as_ref()
+                        .is_some_and(|info| info.is_class_constructor)
+                {
+                    return Err(JsError::type_error(
+                        "Class constructor cannot be invoked without 'new'",
+                    ));
+                }
                 // Call bytecode-compiled function using the bytecode VM
                 self.call_bytecode_function_with_new_target(bc_func, this_value, args, new_target)
             }
